@@ -287,7 +287,13 @@ impl Display for Expr {
         }
 
         if let Some(ref val) = self.val {
-            fmt.write_str(val)?;
+            // a text literal is written in quotes, so that its text never reads like
+            // a column (`'Name'` and `name`) or like another expression
+            if val == "*" || val.parse::<f64>().is_ok() {
+                fmt.write_str(val)?;
+            } else {
+                write!(fmt, "'{}'", val)?;
+            }
         }
 
         if let Some(ref op) = self.arithmetic_op {
